@@ -39,6 +39,15 @@ var osFuncs = map[string]string{
 	"MkdirAll": "OSMkdirAll", "Mkdir": "OSMkdir", "Chmod": "OSChmod", "Truncate": "OSTruncate",
 }
 var ioutilFuncs = map[string]string{"WriteFile": "OSWriteFile"}
+// blocking (or runtime-dependent) methods of package sync -> simulator-aware wrappers
+var syncMethods = map[string]string{
+	"Mutex.Lock": "MutexLock", "RWMutex.Lock": "RWMutexLock", "RWMutex.RLock": "RWMutexRLock",
+	"Once.Do": "OnceDo", "Pool.Get": "PoolGet", "Pool.Put": "PoolPut",
+}
+
+// blocking sync methods the simulator cannot own
+var syncUnhandled = map[string]bool{"WaitGroup.Wait": true, "Cond.Wait": true}
+
 var fileMethods = map[string]string{"Write": "FileWrite", "WriteString": "FileWriteString", "Close": "FileClose", "Sync": "FileSync"}
 
 // os functions that touch the filesystem or process state and have no wrapper
@@ -68,6 +77,7 @@ type rewriter struct {
 	unwrapped map[string]int
 	osCalls   int
 	fileCalls int
+	syncCalls int
 	mapRanges int
 	yields    int
 }
@@ -344,6 +354,19 @@ func (r *rewriter) rewriteOS(f *ast.File) {
 		case *ast.CallExpr:
 			if sel, ok := t.Fun.(*ast.SelectorExpr); ok {
 				if s, ok := r.info.Selections[sel]; ok && s.Kind() == types.MethodVal {
+					if recv, tn := r.syncReceiver(sel, s); tn != "" {
+						key := tn + "." + sel.Sel.Name
+						if w, ok := syncMethods[key]; ok {
+							t.Fun = hookSel(w)
+							t.Args = append([]ast.Expr{recv}, t.Args...)
+							r.syncCalls++
+							r.usesHook[f] = true
+							return true
+						}
+						if syncUnhandled[key] {
+							r.unwrapped["sync."+key]++
+						}
+					}
 					if w, ok := fileMethods[sel.Sel.Name]; ok && isOSFilePtr(s.Recv()) {
 						t.Fun = hookSel(w)
 						t.Args = append([]ast.Expr{sel.X}, t.Args...)
@@ -363,6 +386,47 @@ func (r *rewriter) rewriteOS(f *ast.File) {
 		return true
 	}
 	ast.Inspect(f, visit)
+}
+
+// syncReceiver returns, for a method call on a type of package sync (directly or
+// promoted through embedded fields), an expression of pointer type for the receiver
+// and the type's name.
+func (r *rewriter) syncReceiver(sel *ast.SelectorExpr, s *types.Selection) (ast.Expr, string) {
+	fn, ok := s.Obj().(*types.Func)
+	if !ok || fn.Pkg() == nil || fn.Pkg().Path() != "sync" {
+		return nil, ""
+	}
+	sig := fn.Type().(*types.Signature)
+	if sig.Recv() == nil {
+		return nil, ""
+	}
+	rt := sig.Recv().Type()
+	if p, ok := rt.(*types.Pointer); ok {
+		rt = p.Elem()
+	}
+	named, ok := rt.(*types.Named)
+	if !ok {
+		return nil, ""
+	}
+	expr := sel.X
+	cur := s.Recv()
+	idx := s.Index()
+	for _, fi := range idx[:len(idx)-1] { // promoted through embedded fields
+		if p, ok := cur.Underlying().(*types.Pointer); ok {
+			cur = p.Elem()
+		}
+		st, ok := cur.Underlying().(*types.Struct)
+		if !ok {
+			die("cannot follow embedded field path at %s", r.fset.Position(sel.Pos()))
+		}
+		fld := st.Field(fi)
+		expr = &ast.SelectorExpr{X: expr, Sel: ast.NewIdent(fld.Name())}
+		cur = fld.Type()
+	}
+	if _, isPtr := cur.Underlying().(*types.Pointer); !isPtr {
+		expr = &ast.UnaryExpr{Op: token.AND, X: expr}
+	}
+	return expr, named.Obj().Name()
 }
 
 func isOSFilePtr(t types.Type) bool {
@@ -556,6 +620,7 @@ func main() {
 		"yield_sites":            strconv.Itoa(r.yields),
 		"os_calls_redirected":    strconv.Itoa(r.osCalls),
 		"file_methods_redirected": strconv.Itoa(r.fileCalls),
+		"sync_calls_redirected":   strconv.Itoa(r.syncCalls),
 		"unintercepted_os_calls": strings.Join(unw, ","),
 		"package_vars":           strings.Join(globals, ","),
 	}
